@@ -79,12 +79,13 @@ struct Session<'a> {
     chars: Vec<u32>,          // test alphabet
     maxlen: usize,
     observed: std::collections::HashSet<usize>,
+    last_end: u32,
     t: &'a mut Trace,
 }
 
 impl<'a> Session<'a> {
     fn new(t: &'a mut Trace, chars: Vec<u32>, maxlen: usize) -> Self {
-        Session { m: ReManager::new(), ops: Vec::new(), pool: Vec::new(), chars, maxlen, observed: std::collections::HashSet::new(), t }
+        Session { m: ReManager::new(), ops: Vec::new(), pool: Vec::new(), chars, maxlen, observed: std::collections::HashSet::new(), last_end: 96, t }
     }
 
     fn rec(&mut self, lhs: String, res: String, nontrivial: bool) {
@@ -190,7 +191,7 @@ fn gen_constructor(s: &mut Session, rng: &mut Rng, size_cap: u32) {
     let kind = rng.below(100);
     if n < 4 || kind < 14 {
         // atoms
-        match rng.below(7) {
+        match rng.below(9) {
             0 => {
                 let a = pick_char(rng, &s.chars.clone());
                 let b0 = pick_char(rng, &s.chars.clone());
@@ -230,9 +231,16 @@ fn gen_constructor(s: &mut Session, rng: &mut Rng, size_cap: u32) {
                 });
             }
             _ => {
-                let a = pick_char(rng, &s.chars.clone());
+                // ranges aligned with earlier ones: adjacent to the previous range, or starting at 0,
+                // or ending at MAX_CHAR (alphabet-covering class structures)
+                let a = match rng.below(6) {
+                    0 => 0,
+                    1 | 2 => std::cmp::min(s.last_end.saturating_add(1), MAX_CHAR),
+                    _ => pick_char(rng, &s.chars.clone()),
+                };
                 let w = rng.range(0, 3) as u32;
-                let b = std::cmp::min(a + w, MAX_CHAR);
+                let b = if rng.chance(1, 8) { MAX_CHAR } else { std::cmp::min(a + w, MAX_CHAR) };
+                s.last_end = b;
                 s.cons(format!("re char_set {}-{}", a, b), 1, |m| m.char_set(CharSet::range(a, b)));
             }
         }
@@ -244,6 +252,62 @@ fn gen_constructor(s: &mut Session, rng: &mut Rng, size_cap: u32) {
         return;
     }
     let (ix, iy) = (Session::id(x), Session::id(y));
+    if rng.chance(1, 12) {
+        // law-shaped terms (absorption, idempotence, excluded middle): operands that share a
+        // sub-term, where the subsumption test can fire in both directions
+        let w = if rng.chance(1, 2) {
+            // a range covering x's first characters, so that x ⊆ y is provable
+            let a = pick_char(rng, &s.chars.clone());
+            let b = std::cmp::min(a + 3, MAX_CHAR);
+            s.cons(format!("re range {} {}", a, b), 1, |m| m.range(a, b)).unwrap_or(y)
+        } else {
+            y
+        };
+        let iw = Session::id(w);
+        match rng.below(5) {
+            0 => {
+                if let Some(i) = s.cons(format!("re inter {} {}", ix, iw), sx + sy + 1, |m| m.inter(x, w)) {
+                    let ii = Session::id(i);
+                    if rng.chance(1, 2) {
+                        s.cons(format!("re union {} {}", ix, ii), 2 * sx + sy + 2, |m| m.union(x, i));
+                    } else {
+                        s.cons(format!("re union {} {}", ii, ix), 2 * sx + sy + 2, |m| m.union(i, x));
+                    }
+                }
+            }
+            1 => {
+                if let Some(u) = s.cons(format!("re union {} {}", ix, iw), sx + sy + 1, |m| m.union(x, w)) {
+                    let iu = Session::id(u);
+                    s.cons(format!("re inter {} {}", ix, iu), 2 * sx + sy + 2, |m| m.inter(x, u));
+                    s.cons(format!("re union {} {}", iu, ix), 2 * sx + sy + 2, |m| m.union(u, x));
+                }
+            }
+            2 => {
+                if let Some(c) = s.cons(format!("re concat {} 3", ix), sx + 2, |m| {
+                    let f = m.full();
+                    m.concat(x, f)
+                }) {
+                    let ic = Session::id(c);
+                    s.cons(format!("re union {} {}", ix, ic), 2 * sx + 3, |m| m.union(x, c));
+                    if let Some(i) = s.cons(format!("re inter {} {}", ix, ic), 2 * sx + 3, |m| m.inter(x, c)) {
+                        s.cons(format!("re union {} {}", Session::id(i), ix), 3 * sx + 4, |m| m.union(i, x));
+                    }
+                }
+            }
+            3 => {
+                s.cons(format!("re diff {} {}", ix, ix), 2 * sx + 1, |m| m.diff(x, x));
+                if let Some(c) = s.cons(format!("re comp {}", ix), sx + 1, |m| m.complement(x)) {
+                    s.cons(format!("re union {} {}", ix, Session::id(c)), 2 * sx + 2, |m| m.union(x, c));
+                    s.cons(format!("re inter {} {}", Session::id(c), ix), 2 * sx + 2, |m| m.inter(c, x));
+                }
+            }
+            _ => {
+                s.cons(format!("re union_list [{},{},{}]", ix, iw, ix), 2 * sx + sy + 1, |m| m.union_list([x, w, x]));
+                s.cons(format!("re inter_list [{},{},{}]", ix, iw, ix), 2 * sx + sy + 1, |m| m.inter_list([x, w, x]));
+            }
+        }
+        return;
+    }
     if kind < 30 {
         s.cons(format!("re concat {} {}", ix, iy), sx + sy + 1, |m| m.concat(x, y));
     } else if kind < 42 {
@@ -397,6 +461,27 @@ fn observe(s: &mut Session, rng: &mut Rng, e: RegLan, size: u32, heavy: bool) {
             Some(w) => format!("some:{}", p_nats(w.as_ref())),
         });
         s.rec(format!("re get_string {}", ie), r, true);
+        // history: the same questions about the derivatives just explored (their answers must not
+        // depend on what an earlier search left behind in the manager), then about e again
+        let closure_ids: Vec<usize> = guarded_m(&mut s.m, |m| {
+            let v: Vec<String> = m.iter_derivatives(e).map(|x| x.verif_id().to_string()).collect();
+            v.join(",")
+        })
+        .split(',')
+        .filter_map(|x| x.parse().ok())
+        .collect();
+        for &did in closure_ids.iter().skip(1).take(6) {
+            let d = s.m.verif_term(did);
+            let r = guarded_m(&mut s.m, |m| p_bool(m.is_empty_re(d)));
+            s.rec(format!("re is_empty_re {}", did), r, true);
+            let r = guarded_m(&mut s.m, |m| match m.get_string(d) {
+                None => "none".into(),
+                Some(w) => format!("some:{}", p_nats(w.as_ref())),
+            });
+            s.rec(format!("re get_string {}", did), r, true);
+        }
+        let r = guarded_m(&mut s.m, |m| p_bool(m.is_empty_re(e)));
+        s.rec(format!("re is_empty_re {}", ie), r, true);
         for &c in cps.iter().take(5) {
             let r = guarded_m(&mut s.m, |m| p_bool(m.start_char(e, c)));
             s.t.count(&format!("start_char={}", r));
@@ -417,6 +502,8 @@ fn observe(s: &mut Session, rng: &mut Rng, e: RegLan, size: u32, heavy: bool) {
         // compilation
         let r = guarded_m(&mut s.m, |m| crate::fam_aut::aut_str(&m.compile(e)));
         s.rec(format!("re compile {}", ie), r, true);
+        let r = guarded_m(&mut s.m, |m| m.compile(e).num_states().to_string());
+        s.rec(format!("re compile_size {}", ie), r, true);
         let k = nd;
         for n in [0usize, k.saturating_sub(1), k, k + 1] {
             let r = guarded_m(&mut s.m, |m| match m.try_compile(e, n) {
@@ -425,6 +512,12 @@ fn observe(s: &mut Session, rng: &mut Rng, e: RegLan, size: u32, heavy: bool) {
             });
             s.t.count(if r == "none" { "try_compile=none" } else { "try_compile=some" });
             s.rec(format!("re try_compile {} {}", ie, n), r, true);
+            // C19 only answers for Some/None and the number of states
+            let r = guarded_m(&mut s.m, |m| match m.try_compile(e, n) {
+                None => "none".into(),
+                Some(a) => format!("some:{}", a.num_states()),
+            });
+            s.rec(format!("re try_compile_size {} {}", ie, n), r, true);
         }
         // search (hook) on short strings
         for _ in 0..2 {
@@ -475,6 +568,49 @@ fn corpus(t: &mut Trace) {
     for (e, sz) in all {
         observe(&mut s, &mut rng, e, sz, true);
     }
+    s.finish();
+}
+
+/// terms whose operands have abutting class structures: a nullable head whose classes cover a
+/// prefix [0,k] of the alphabet followed by alternatives starting exactly at k+1 with adjacent
+/// intervals (also variants ending at MAX_CHAR) — exercises merge_partitions carry/witness paths
+/// through deriv_class, class/char/set derivatives and compilation
+fn aligned_session(t: &mut Trace, rng: &mut Rng, maxlen: usize) {
+    let k = rng.below(3) as u32; // head covers [0,k]
+    let m = k + 1 + rng.below(3) as u32; // first alternative [k+1,m]
+    let n = m + 1 + rng.below(4) as u32; // second alternative [m+1,n]
+    let top = rng.chance(1, 3); // second alternative reaches MAX_CHAR
+    let hi = if top { MAX_CHAR } else { n };
+    let chars = vec![0u32, k + 1, m + 1, hi.min(n + 1)];
+    let mut s = Session::new(t, chars, maxlen);
+    let r0 = s.cons(format!("re range 0 {}", k), 1, |mm| mm.range(0, k)).unwrap();
+    let r1 = s.cons(format!("re range {} {}", k + 1, m), 1, |mm| mm.range(k + 1, m)).unwrap();
+    let r2 = s.cons(format!("re range {} {}", m + 1, hi), 1, |mm| mm.range(m + 1, hi)).unwrap();
+    let x = s.cons("re char 120".into(), 1, |mm| mm.char(120)).unwrap();
+    let y = s.cons("re char 121".into(), 1, |mm| mm.char(121)).unwrap();
+    let id = Session::id;
+    let head = match rng.below(3) {
+        0 => s.cons(format!("re opt {}", id(r0)), 2, |mm| mm.opt(r0)).unwrap(),
+        1 => s.cons(format!("re star {}", id(r0)), 2, |mm| mm.star(r0)).unwrap(),
+        _ => s.cons(format!("re smt_loop {} 0 2", id(r0)), 2, |mm| mm.smt_loop(r0, 0, 2)).unwrap(),
+    };
+    let a1 = s.cons(format!("re concat {} {}", id(r1), id(x)), 3, |mm| mm.concat(r1, x)).unwrap();
+    let a2 = s.cons(format!("re concat {} {}", id(r2), id(y)), 3, |mm| mm.concat(r2, y)).unwrap();
+    let alt = match rng.below(3) {
+        0 => s.cons(format!("re union {} {}", id(a1), id(a2)), 7, |mm| mm.union(a1, a2)).unwrap(),
+        1 => {
+            let c2 = s.cons(format!("re comp {}", id(a2)), 4, |mm| mm.complement(a2)).unwrap();
+            s.cons(format!("re inter {} {}", id(a1), id(c2)), 8, |mm| mm.inter(a1, c2)).unwrap()
+        }
+        _ => s.cons(format!("re union_list [{},{},{}]", id(a1), id(a2), id(x)), 8, |mm| mm.union_list([a1, a2, x])).unwrap(),
+    };
+    let e = s.cons(format!("re concat {} {}", id(head), id(alt)), 10, |mm| mm.concat(head, alt)).unwrap();
+    let e2 = s.cons(format!("re union {} {}", id(e), id(alt)), 12, |mm| mm.union(e, alt)).unwrap();
+    let pool = s.pool.clone();
+    for (q, sz) in pool {
+        observe(&mut s, rng, q, sz, true);
+    }
+    let _ = e2;
     s.finish();
 }
 
@@ -567,6 +703,25 @@ fn global_session(seed: u64, maxlen: usize) -> Vec<(String, String, bool)> {
                 Err(_) => ops.push((lhs, "PANIC".into(), true)),
             }
         }
+        // every term handed out by a wrapper must be the thread-local manager's own node (C07)
+        for &e in pool.iter() {
+            let same = w::verif_with_manager(|m| {
+                let i = e.verif_id();
+                i < m.verif_num_terms() && std::ptr::eq(e, m.verif_term(i))
+            });
+            ops.push((format!("re ptr_in_table {}", id(e)), p_bool(same), true));
+        }
+        {
+            let checks: [(&str, bool); 4] = [
+                ("comp_comp_all", std::ptr::eq(w::re_comp(w::re_comp(w::re_all())), w::re_all())),
+                ("comp_none_is_all", std::ptr::eq(w::re_comp(w::re_none()), w::re_all())),
+                ("star_allchar_is_all", std::ptr::eq(w::re_star(w::re_allchar()), w::re_all())),
+                ("none_twice", std::ptr::eq(w::re_none(), w::re_none())),
+            ];
+            for (name, b) in checks {
+                ops.push((format!("re ptr_in_table {}", name), p_bool(b), true));
+            }
+        }
         // membership and replacement through the wrappers
         let mut seen = std::collections::HashSet::new();
         for &e in pool.iter() {
@@ -605,6 +760,170 @@ fn global_session(seed: u64, maxlen: usize) -> Vec<(String, String, bool)> {
     h.join().unwrap_or_default()
 }
 
+/// abstract construction step: operands are indices into the list of earlier results
+#[derive(Clone, Debug)]
+enum Step {
+    Range(u32, u32),
+    Str(Vec<u32>),
+    Const(u8),
+    Concat(usize, usize),
+    Union(usize, usize),
+    Inter(usize, usize),
+    Comp(usize),
+    Diff(usize, usize),
+    DiffList(usize, Vec<usize>),
+    UnionList(Vec<usize>),
+    InterList(Vec<usize>),
+    Loop(usize, u32, Option<u32>),
+}
+
+fn exec_step(m: &mut ReManager, st: &Step, pool: &[RegLan]) -> RegLan {
+    match st {
+        Step::Range(a, b) => m.range(*a, *b),
+        Step::Str(v) => m.str(&SmtString::from(&v[..])),
+        Step::Const(k) => match k {
+            0 => m.empty(),
+            1 => m.full(),
+            2 => m.epsilon(),
+            3 => m.sigma_plus(),
+            _ => m.all_chars(),
+        },
+        Step::Concat(a, b) => m.concat(pool[*a], pool[*b]),
+        Step::Union(a, b) => m.union(pool[*a], pool[*b]),
+        Step::Inter(a, b) => m.inter(pool[*a], pool[*b]),
+        Step::Comp(a) => m.complement(pool[*a]),
+        Step::Diff(a, b) => m.diff(pool[*a], pool[*b]),
+        Step::DiffList(a, l) => {
+            let v: Vec<RegLan> = l.iter().map(|i| pool[*i]).collect();
+            m.diff_list(pool[*a], v)
+        }
+        Step::UnionList(l) => {
+            let v: Vec<RegLan> = l.iter().map(|i| pool[*i]).collect();
+            m.union_list(v)
+        }
+        Step::InterList(l) => {
+            let v: Vec<RegLan> = l.iter().map(|i| pool[*i]).collect();
+            m.inter_list(v)
+        }
+        Step::Loop(a, lo, hi) => {
+            let r = match hi {
+                None => LoopRange::infinite(*lo),
+                Some(h) => LoopRange::finite(*lo, *h),
+            };
+            m.mk_loop(pool[*a], r)
+        }
+    }
+}
+
+fn gen_step(rng: &mut Rng, n: usize, chars: &[u32]) -> Step {
+    let k = if n < 3 { rng.below(3) } else { rng.below(14) };
+    let i = |rng: &mut Rng| rng.below(n as u64) as usize;
+    match k {
+        0 => {
+            let a = pick_char(rng, chars);
+            let b = pick_char(rng, chars);
+            Step::Range(a.min(b), a.max(b))
+        }
+        1 => Step::Str(rand_string(rng, chars, 3)),
+        2 => Step::Const(rng.below(5) as u8),
+        3 | 4 => Step::Concat(i(rng), i(rng)),
+        5 => Step::Union(i(rng), i(rng)),
+        6 => Step::Inter(i(rng), i(rng)),
+        7 | 8 => Step::Comp(i(rng)),
+        9 => Step::Diff(i(rng), i(rng)),
+        10 => {
+            let l = (0..rng.range(1, 3)).map(|_| i(rng)).collect();
+            Step::DiffList(i(rng), l)
+        }
+        11 => Step::UnionList((0..rng.range(0, 3)).map(|_| i(rng)).collect()),
+        12 => Step::InterList((0..rng.range(0, 3)).map(|_| i(rng)).collect()),
+        _ => {
+            let lo = rng.below(3) as u32;
+            let hi = if rng.chance(1, 3) { None } else { Some(lo + rng.below(3) as u32) };
+            Step::Loop(i(rng), lo, hi)
+        }
+    }
+}
+
+/// membership signature on all strings up to length 3 over `chars`
+fn signature(m: &mut ReManager, e: RegLan, chars: &[u32]) -> String {
+    let mut words: Vec<Vec<u32>> = vec![vec![]];
+    let mut frontier: Vec<Vec<u32>> = vec![vec![]];
+    for _ in 0..3 {
+        let mut next = Vec::new();
+        for w in &frontier {
+            for &c in chars {
+                let mut x = w.clone();
+                x.push(c);
+                next.push(x);
+            }
+        }
+        words.extend(next.iter().cloned());
+        frontier = next;
+    }
+    let mut sig = String::new();
+    for w in words {
+        sig.push(if m.str_in_re(&SmtString::from(&w[..]), e) { '1' } else { '0' });
+    }
+    sig
+}
+
+/// C07: the same construction program on two managers with different histories (the second one
+/// creates unrelated terms and computes unrelated derivatives between the steps) must denote the
+/// same languages step by step
+fn twin_session(t: &mut Trace, rng: &mut Rng, tag: u64) {
+    let chars: Vec<u32> = vec![97, 98, 99];
+    let mut a = ReManager::new();
+    let mut b = ReManager::new();
+    let mut pa: Vec<RegLan> = Vec::new();
+    let mut pb: Vec<RegLan> = Vec::new();
+    let mut noise: Vec<RegLan> = Vec::new();
+    for k in 0..25 {
+        // history noise on b only
+        for _ in 0..rng.range(0, 3) {
+            let st = gen_step(rng, noise.len().max(1), &[100, 101, 102, 97]);
+            if noise.is_empty() {
+                noise.push(b.char(100));
+            }
+            let r = std::panic::catch_unwind(std::panic::AssertUnwindSafe(|| exec_step(&mut b, &st, &noise)));
+            if let Ok(x) = r {
+                noise.push(x);
+                let c = *rng.pick(&[97u32, 100, 101]);
+                let _ = std::panic::catch_unwind(std::panic::AssertUnwindSafe(|| b.char_derivative(x, c)));
+                if rng.chance(1, 4) {
+                    let _ = std::panic::catch_unwind(std::panic::AssertUnwindSafe(|| b.is_empty_re(x)));
+                }
+            }
+        }
+        let st = gen_step(rng, pa.len(), &chars);
+        let ra = std::panic::catch_unwind(std::panic::AssertUnwindSafe(|| exec_step(&mut a, &st, &pa)));
+        let rb = std::panic::catch_unwind(std::panic::AssertUnwindSafe(|| exec_step(&mut b, &st, &pb)));
+        match (ra, rb) {
+            (Ok(x), Ok(y)) => {
+                pa.push(x);
+                pb.push(y);
+                let sa = signature(&mut a, x, &chars);
+                let sb = guarded(|| signature(&mut b, y, &chars));
+                t.count("twin=both-ok");
+                t.op(&format!("re twin {}:{}:{} {}", tag, k, format!("{:?}", st).replace(' ', ""), sa), &sb, true);
+            }
+            (Err(_), Err(_)) => {
+                t.count("twin=both-panic");
+                t.op(&format!("re twin {}:{}:{} PANIC", tag, k, format!("{:?}", st).replace(' ', "")), "PANIC", true);
+                break;
+            }
+            (Ok(_), Err(_)) => {
+                t.op(&format!("re twin {}:{}:{} OK", tag, k, format!("{:?}", st).replace(' ', "")), "PANIC", true);
+                break;
+            }
+            (Err(_), Ok(_)) => {
+                t.op(&format!("re twin {}:{}:{} PANIC", tag, k, format!("{:?}", st).replace(' ', "")), "OK", true);
+                break;
+            }
+        }
+    }
+}
+
 pub fn run(t: &mut Trace, rng: &mut Rng, thorough: bool) {
     t.rule = "sessions on a fresh ReManager: random constructor programs over all 17 public constructors (atoms over a 4-letter test alphabet plus boundary characters; binary and n-ary operators on earlier results, size-capped), after which the full term table is dumped and every operation is replayed by the model by id; observations per term: nullable, derivative classes, membership on random strings, char/class/set/str derivatives at class cut points ±1 and invalid class ids, derivative closure, emptiness, witness, start_char/start_class, regex search, included_in on random ordered pairs. distinct = distinct operation lines; non-trivial = every line except table/bookkeeping lines".into();
     corpus(t);
@@ -612,6 +931,14 @@ pub fn run(t: &mut Trace, rng: &mut Rng, thorough: bool) {
     for k in 0..sessions {
         let (n_cons, cap) = match k % 4 { 0 => (30, 12), 1 => (50, 20), 2 => (70, 30), _ => (90, 40) };
         random_session(t, rng, n_cons, cap, if thorough { 4 } else { 3 });
+    }
+    let aligned = if thorough { 300 } else { 30 };
+    for _ in 0..aligned {
+        aligned_session(t, rng, if thorough { 4 } else { 3 });
+    }
+    let twins = if thorough { 600 } else { 60 };
+    for k in 0..twins {
+        twin_session(t, rng, k);
     }
     let gsessions = if thorough { 200 } else { 20 };
     for _ in 0..gsessions {
